@@ -11,7 +11,7 @@
 (* rules) permit may be taken.  The books (node ledger, queue ledger) are explicit variables updated by each  *)
 (* action the way the code updates them, so conservation is a real invariant, not a definition.              *)
 (*                                                                                                          *)
-(* AsCoded = TRUE models what the pinned code does in three corners that are genuine defects                  *)
+(* AsCoded = TRUE models what the code does in the corners that are genuine, unrepaired defects              *)
 (* (KNOWN_FINDINGS.json); TLC then produces the counter-examples that the conformance harness replays on the *)
 (* real code.  AsCoded = FALSE models the intended behaviour: all invariants hold.                            *)
 (* hist records the ENVIRONMENT operations only ("schedule" = run one cycle): it is the test the harness     *)
@@ -159,7 +159,7 @@ AddApp(a) == /\ app[a].st = "none"
              /\ app' = [app EXCEPT ![a] = [st |-> "New", known |-> TRUE]]
              /\ UNCHANGED <<node, ask, qal, resv, sv, pend, bad>>
              /\ H([op |-> "addApp", app |-> a, queue |-> AppLeaf[a], user |-> "u0", groups |-> <<"g1">>, tags |-> [x \in {} |-> ""],
-                   gang |-> a \in GangApps, style |-> IF a \in GangApps THEN "Soft" ELSE "", phAsk |-> Res(2), forced |-> FALSE])
+                   gang |-> a \in GangApps, style |-> IF a \in GangApps THEN "Soft" ELSE "", phAsk |-> Res(4), forced |-> FALSE])
 
 \* removeApplication: asks gone, allocations removed from the nodes, queue ledger reduced by what was listed
 RemoveApp(a) ==
@@ -168,7 +168,8 @@ RemoveApp(a) ==
           listed == Listed(a)
           rel == SetToSeq(listed) IN
       /\ ask' = [k \in Keys |-> IF k \in mine THEN NoAsk ELSE ask[k]]
-      /\ node' = [n \in Nodes |-> [node[n] EXCEPT !.keys = IF AsCoded THEN node[n].keys \ listed ELSE node[n].keys \ mine]]
+      \* (the in-flight real half of a swap, not listed yet, leaves its node as well: repaired in the code, FX-C03-REMOVEAPP-INFLIGHT-REAL)
+      /\ node' = [n \in Nodes |-> [node[n] EXCEPT !.keys = node[n].keys \ mine]]
       /\ qal' = [qal EXCEPT ![AppLeaf[a]] = qal[AppLeaf[a]] - Sum(listed, LAMBDA k : ask[k].size)]
       /\ resv' = {r \in resv : r[1] \notin mine}
       /\ app' = [app EXCEPT ![a] = [st |-> "none", known |-> FALSE]]
@@ -216,17 +217,18 @@ ReleaseKey(k) ==
           wasListed == ask[k].listed
           linked == ask[k].rel # ""
           partner == ask[k].rel
-          \* what the code does to the swap partner: nothing (as coded); intended: the swap is cancelled
+          \* the swap partner: the swap is cancelled (the code used to leave the partner alone: repaired, FX-C04-RELEASE-LINKED-REAL
+          \* and FX-C06-PH-RELEASED-INFLIGHT)
           askF == [x \in Keys |->
-                     IF x = k THEN (IF AsCoded /\ linked /\ ~ask[k].ph /\ ~wasListed THEN [ask[k] EXCEPT !.st = "ghost"] ELSE NoAsk)
-                     ELSE IF ~AsCoded /\ linked /\ x = partner
+                     IF x = k THEN NoAsk
+                     ELSE IF linked /\ x = partner
                           THEN (IF ask[x].ph THEN [ask[x] EXCEPT !.rel = "", !.released = FALSE]           \* placeholder free again
                                 ELSE [ask[x] EXCEPT !.rel = "", !.st = "pend", !.node = NoNode])            \* real ask rescheduled
                      ELSE ask[x]] IN
       /\ ask' = askF
       /\ node' = [n \in Nodes |-> [node[n] EXCEPT !.keys =
-                     IF wasListed THEN (IF ~AsCoded /\ linked /\ ask[k].ph THEN (node[n].keys \ {k}) \ {partner} ELSE node[n].keys \ {k})
-                     ELSE IF ~AsCoded THEN node[n].keys \ {k} ELSE node[n].keys]]
+                     IF wasListed THEN (IF linked /\ ask[k].ph THEN (node[n].keys \ {k}) \ {partner} ELSE node[n].keys \ {k})
+                     ELSE node[n].keys \ {k}]]
       /\ qal' = IF wasListed THEN [qal EXCEPT ![AppLeaf[a]] = qal[AppLeaf[a]] - ask[k].size] ELSE qal
       /\ resv' = {r \in resv : r[1] # k}
       /\ app' = [app EXCEPT ![a].st = AfterLoss(a, askF, app[a].st)]
@@ -373,7 +375,8 @@ InitWarm ==
                     preemptOther |-> FALSE, preemptSelf |-> TRUE, originator |-> FALSE, node |-> ""],
                    [op |-> "schedule"] >>
 SpecWarm == InitWarm /\ [][Next]_vars
-\* Warmer: in addition a real task of the group, smaller than the placeholder, is waiting
+\* Warmer: in addition a real task of the group, smaller than the placeholder, is waiting; the application has announced a
+\* placeholder total of two placeholders, so the real core keeps it Accepted (InitWarm announces one: Running there)
 WK2 == CHOOSE w \in Keys \ {WK} : \A x \in Keys \ {WK} : KeyRank[w] <= KeyRank[x]
 WarmAsk == [op |-> "addAsk", app |-> WG, key |-> WK2, res |-> Res(1), ph |-> FALSE, tg |-> WTG, aged |-> TRUE, reqNode |-> "", prio |-> 0,
             preemptOther |-> FALSE, preemptSelf |-> TRUE, originator |-> FALSE, node |-> ""]
@@ -390,7 +393,7 @@ InitWarm2 ==
       /\ hist = << [op |-> "addNode", node |-> WN1, cap |-> Res(WarmCap), drained |-> FALSE],
                    [op |-> "addNode", node |-> WN2, cap |-> Res(WarmCap), drained |-> FALSE],
                    [op |-> "addApp", app |-> WG, queue |-> AppLeaf[WG], user |-> "u0", groups |-> <<"g1">>, tags |-> [w \in {} |-> ""],
-                    gang |-> TRUE, style |-> "Soft", phAsk |-> Res(2), forced |-> FALSE],
+                    gang |-> TRUE, style |-> "Soft", phAsk |-> Res(4), forced |-> FALSE],
                    [op |-> "addAsk", app |-> WG, key |-> WK, res |-> Res(2), ph |-> TRUE, tg |-> WTG, aged |-> TRUE, reqNode |-> "", prio |-> 0,
                     preemptOther |-> FALSE, preemptSelf |-> TRUE, originator |-> FALSE, node |-> ""],
                    [op |-> "schedule"], WarmAsk >>
